@@ -72,7 +72,7 @@ def _term(t, L, K):
 
 
 def inlinable(P, caller, g):
-    return (g is not None and g.kind == "fn" and g.crate == caller.crate and g.id != caller.id
+    return (g is not None and g.kind in ("fn", "method") and g.crate == caller.crate and g.id != caller.id
             and (g.impl is None or not g.impl.get("trait")) and g.blocks)
 
 
@@ -145,7 +145,7 @@ def helpers_of(P, fns, depth=2):
                 if not t.get("f"):
                     continue
                 g = P.fns.get(t["f"]["id"])
-                if g is not None and inlinable(P, f, g):
+                if g is not None and inlinable(P, f, g) and not g.pub and not g.trait_default_of:
                     out.add(g.id)
                     work.append((g, d + 1))
     return out
